@@ -96,7 +96,8 @@ Definition run_case (variant n : name) (v : validity) (value : Z) (flags fill : 
         | Ret s, _, _ => CName s
         | _, _, _ => CP
         end;
-        shown_opt (get_register c rf1 n v) before;                                 (* mg *)
+        shown_opt (md_get_register c rf1 n v) before;                              (* mg *)
+        shown (md_get_always c rf1 n) before;                                      (* mga *)
         (* the dedicated accessors against the by-name reads, before and after the set *)
         CNum (if same (md_stack_pointer c base) (get_always c base (ct_sp_name c)) &&
                  same (md_stack_pointer c rf1) (get_always c rf1 (ct_sp_name c)) then 1 else 0);             (* sa *)
